@@ -34,6 +34,9 @@ package channels
 //@ lemma [pause-resume-set-the-flag] {C11}: forall s State ::
 //@     (applied(s, PauseInitiator) ==> step(s, PauseInitiator).InitiatorPaused) && (applied(s, ResumeInitiator) ==> !step(s, ResumeInitiator).InitiatorPaused) &&
 //@     (applied(s, PauseResponder) ==> step(s, PauseResponder).ResponderPaused) && (applied(s, ResumeResponder) ==> !step(s, ResumeResponder).ResponderPaused)
+//@ lemma [resume-accepted-wherever-pause-is] {C11}: forall s State ::
+//@     (applied(s, PauseInitiator) ==> applied(s, ResumeInitiator)) && (applied(s, PauseResponder) ==> applied(s, ResumeResponder))
+//@     -- a party that could pause in a status can resume in it: a flag set by a pause is never stuck because the resume is ignored there
 //@ lemma [ignored-pause-keeps-state] {C11}: foreach E in (PauseInitiator, PauseResponder, ResumeInitiator, ResumeResponder) :: forall s State ::
 //@     !applied(s, E) ==> step(s, E) == s -- a pause / resume request in a status where it is meaningless leaves the record as it was
 //@ lemma [only-pause-events-touch-the-initiator-flag] {C11}: foreach E in (*) except (PauseInitiator, ResumeInitiator) :: forall s State ::
